@@ -333,7 +333,7 @@ fn decoders<F: Fld>(report: &mut Report, width: u128) -> (u64, u64) {
 
 pub fn run(args: &Args) {
     let mut report = Report::new(args, "exploration");
-    let wl: u32 = if args.tier == mck::Tier::Thorough { 18 } else { 12 };
+    let wl: u32 = if args.tier == mck::Tier::Thorough { 22 } else { 12 };
     let width: u128 = 1 << wl;
     let c = constants::<F64>(&mut report) + constants::<F62>(&mut report) + constants::<F128>(&mut report);
     report.part("modulus, generator, two-adicity, roots of unity of every order", c, c, json!("Lucas certificate from a trial-division factorisation of M-1 done by the harness"));
